@@ -100,6 +100,10 @@ func modifyPolicy(sev *epb.VMSevSnp, policy *cpb.Policy, opts *SevPolicyOptions)
 			}
 			return fmt.Errorf("failed to find measurement for %d VMSA%s", opts.LaunchVmsas, plural)
 		}
+		// An empty entry would leave the measurement unchecked downstream.
+		if len(meas) == 0 {
+			return fmt.Errorf("endorsed measurement for %d VMSAs is empty", opts.LaunchVmsas)
+		}
 		policy.Measurement = meas
 	}
 	// The CA bundle is not an overwrite but an extension of trusted keys.
